@@ -703,7 +703,9 @@ class C01(Check):
                   ResetStep('reset: 2 symbolic users_of edges x 1 changed file', 2, False, False, required=('compared', 'some unit reset', 'some unit kept')),
                   ResetStep('reset: missing-unit entry x 1 edge x 1 changed file', 1, True, False, required=('compared', 'some unit reset')),
                   ResetStep('reset: use lib.all entry x 1 edge x 1 changed file', 1, False, True, required=('compared', 'some unit reset')),
-                  ProjHistory('whole projects: update_source + analyse against a fresh load, 1..2 updates', 2, PJ.C01_PROJECTS, required=preq)]
+                  ProjHistory('whole projects: update_source + analyse against a fresh load, 1 update', 1, PJ.C01_PROJECTS, required=preq),
+                  ProjHistory('whole projects: 1..2 updates (two of the projects, rotating with VERIF_SEED)', 2,
+                              [PJ.C01_PROJECTS[self.seed % len(PJ.C01_PROJECTS)], PJ.C01_PROJECTS[(self.seed + 3) % len(PJ.C01_PROJECTS)]], required=('compared',))]
         else:
             ps = [LibHistory('library history, 3 steps over 3 files', 3, nfiles=3, required=req),
                   LibHistory('library history, 4 steps over 2 files', 4, nfiles=2, required=req, contents=[0, 1, 2, 3, 4]),
